@@ -48,10 +48,13 @@ def strip_comments(s):
     return ''.join(out)
 
 
-def functions(text):
-    """[(context, name, token-hash)] for every fn in the text"""
+def functions(text, spans=None):
+    """[(context, name, token-hash)] for every fn in the text; with `spans` a list, also appends (context, name, first, last)
+    token positions of each function (positions in the token list returned as spans[0] = ('<toks>', toks))"""
     text = re.split(r'#\[cfg\(test\)\]\s*mod\s+\w+', text.replace('\r\n', '\n'))[0]   # unit-test modules are not library code
     toks = TOKEN.findall(strip_comments(text))
+    if spans is not None:
+        spans.append(('<toks>', toks))
     res = []
     # context stack of (label, depth)
     depth = 0
@@ -94,6 +97,8 @@ def functions(text):
                 body = toks[i:k + 1]
                 label = ' / '.join(c[0] for c in ctx)
                 res.append((label, name, hashlib.sha256(' '.join(body).encode()).hexdigest()[:24]))
+                if spans is not None:
+                    spans.append((label, name, i, k))
                 # do not skip: nested fns/closures are part of the body hash; continue after header
         if t == '{':
             depth += 1
@@ -248,6 +253,48 @@ def unreferenced_addition(key, toks):
     return toks.count(fn) <= 1
 
 
+def uncovered_occurrences(repo, differing):
+    """for every identifier: the number of its occurrences in the library that lie OUTSIDE the bodies of the functions
+    whose fingerprint differs from the pinned table (changed or added)"""
+    from collections import Counter
+    cnt = Counter()
+    for rel in FILES:
+        path = os.path.join(repo, 'src', rel)
+        if not os.path.exists(path):
+            continue
+        sp = []
+        functions(open(path, newline='').read(), sp)
+        toks = sp[0][1]
+        covered = bytearray(len(toks))
+        seen = {}
+        for ctx, name, a, b in sp[1:]:
+            key = f'{rel}::{ctx}::{name}'
+            seen[key] = seen.get(key, 0) + 1
+            if seen[key] > 1:
+                key += f'#{seen[key]}'
+            if key in differing:
+                for i in range(a, b + 1):
+                    covered[i] = 1
+        for i, t in enumerate(toks):
+            if not covered[i]:
+                cnt[t] += 1
+    return cnt
+
+
+def referenced_only_from_differing(key, uncovered):
+    """a NEW inherent method or free function all of whose uses lie inside functions that are themselves new or changed:
+    it can influence existing behaviour only through those callers, and each of them is reported (or re-proved) on its own
+    account for the properties it belongs to.  Not for trait impls / trait items / macro bodies (reached without their name
+    being written), and not when the name also occurs in an unchanged function (an inherent method can shadow a trait
+    method of the same name in unchanged callers)."""
+    rel, _, rest = key.partition('::')
+    ctx, _, fn = rest.rpartition('::')
+    fn = re.sub(r'#\d+$', '', fn)
+    if ' for ' in ctx or ctx.startswith('trait') or 'macro_rules!' in ctx:
+        return False
+    return uncovered.get(fn, 0) == 0
+
+
 def check(repo, golden_path, prop):
     if not os.path.exists(golden_path):
         return {'checked': 0, 'changed': ['<no golden fingerprint table>']}
@@ -257,6 +304,8 @@ def check(repo, golden_path, prop):
     ignored = []
     checked = 0
     toks = None
+    differing = {k for k in set(golden) | set(now) if golden.get(k) != now.get(k)}
+    uncovered = None
     for key in sorted(set(golden) | set(now)):
         if prop not in props_of(key):
             continue
@@ -267,6 +316,10 @@ def check(repo, golden_path, prop):
                 toks = toks if toks is not None else all_tokens(repo)
                 if unreferenced_addition(key, toks):
                     ignored.append(f'{key} (added, referenced nowhere)')
+                    continue
+                uncovered = uncovered if uncovered is not None else uncovered_occurrences(repo, differing)
+                if referenced_only_from_differing(key, uncovered):
+                    ignored.append(f'{key} (added, referenced only from new or changed functions, which answer for themselves)')
                     continue
             changed.append(f'{key} ({what})')
     return {'checked': checked, 'changed': changed, 'ignored_additions': ignored}
